@@ -211,6 +211,22 @@ def run(tier: str, only=None) -> core.Result:
         # the dump-order sequences are forked from workers that never validate or dump anything themselves
         do_join = probes.start(HANDLER, CONFIGS, {"dumporder": [{"op": "dumporder", "target": c["target"], "wires": c["wires"],
                                                                  "calls": c["calls"]} for c in pr_meta["dumporder"]]}, n_each=3)
+    # part C: the typed views handed out by the request helpers (send_* returning a model), through a scripted peer
+    snd_meta: List[Dict[str, Any]] = []
+    snd_join = None
+    senders = serialisers.discover_senders() if do_b else []
+    if senders:
+        by_cls: Dict[str, List[Dict[str, Any]]] = {}
+        for c in mcases:
+            if not c["label"].startswith("unknown:") and not any(v is None for v in c["wire"].values()):
+                by_cls.setdefault(c["target"], []).append(c)
+        for ref in senders:
+            q = wiregen.qual(serialisers.sender_return_class(ref))
+            for c in by_cls.get(q, [])[:(25 if tier == "quick" else 80)]:
+                for v in serialisers.sender_arg_variants(ref, c["wire"]):
+                    snd_meta.append({"sender": ref, "label": c["label"], "wire": c["wire"], "variant": v["label"], "kwargs": v["kwargs"]})
+        snd_join = probes.start(HANDLER, CONFIGS, {"sender": [{"op": "sender", "sender": c["sender"], "wire": enc(c["wire"]),
+                                                               "kwargs": c["kwargs"]} for c in snd_meta]}, n_each=2)
     im_cases = c09.inputmut_cases(tier, a_cases) if do_a else []
     im_join = c09.start_inputmut(HANDLER, im_cases) if im_cases else None
     pools = start_pools(workers.per_config_workers(len(CONFIGS)))
@@ -247,6 +263,7 @@ def run(tier: str, only=None) -> core.Result:
         res.harness_errors.append("no aliased member was discovered in any model class: the wire-name oracle would be vacuous")
 
     sig_count: Dict[str, int] = {}
+    audit_extra_c = {"reasked": 0}
 
     def report(sig, msg, replay_args):
         k = json.dumps(sig, sort_keys=True)
@@ -472,6 +489,53 @@ def run(tier: str, only=None) -> core.Result:
                        f"afterwards under {backend} ({ch['via']} differs at '{ch['path']}')",
                        {"part": "libedit", "scenario": lc["scenario"], "params": lc["params"]})
 
+    # ---- part C: typed views through the request helpers ----
+    snd_info: Dict[str, Any] = {"helpers_discovered": [r.partition(":")[2] for r in senders], "calls": 0, "typed_views_judged": 0,
+                                "violating_calls": 0}
+    if snd_join is not None:
+        try:
+            s_ans, s_aud, _ = snd_join()
+        except RuntimeError as e:
+            res.harness_errors.append(str(e))
+            s_ans = None
+        if s_ans is not None:
+            for n_, g_, a_ in s_aud:
+                audit_extra_c["reasked"] += a_["reasked"]
+                if a_["mismatches"]:
+                    res.harness_errors.append(f"nondeterministic sender answer of the {n_} worker (case #{a_['first_mismatch_index']})")
+            ok_per_sender: Dict[str, int] = {}
+            for i, c in enumerate(snd_meta):
+                name = c["sender"].partition(":")[2]
+                snd_info["calls"] += 1
+                bad: Dict[str, Any] = {}
+                for n in s_ans["sender"]:
+                    a = s_ans["sender"][n][i]
+                    if "harness_exc" in a:
+                        res.harness_errors.append(f"worker exception (sender {name}): {a['harness_exc'][-300:]}")
+                        continue
+                    if not a.get("ok"):
+                        if a.get("why") not in ("not-spec-valid",):
+                            ok_per_sender.setdefault(name, 0)
+                        continue
+                    ok_per_sender[name] = ok_per_sender.get(name, 0) + 1
+                    snd_info["typed_views_judged"] += 1
+                    if a["lossless"] or a["differs_from_direct_view"]:
+                        bad[n] = a
+                if bad:
+                    backend = "both" if len(bad) == 2 else next(iter(bad))
+                    a = next(iter(bad.values()))
+                    pb = (a["lossless"] or [{"kind": "differs-from-direct-view", "path": a["differs_from_direct_view"]}])[0]
+                    snd_info["violating_calls"] += 1
+                    report({"class": pb["kind"], "via": "sender:" + name, "member": pb.get("member", c09.norm_path(str(pb.get("path")))),
+                            "backend": backend, "arguments": c["variant"].split("=")[0] + ("=<a string of the response>" if "response" in c["variant"] else "")},
+                           f"{name}({c['variant']}) answered with result {json.dumps(c['wire'], ensure_ascii=True)[:240]}: the typed object it "
+                           f"returns is not a lossless view of that result under {backend}: {pb['kind']} at '{pb.get('path')}' "
+                           f"({pb.get('detail', '')})",
+                           {"part": "sender", "case": {"op": "sender", "sender": c["sender"], "wire": enc(c["wire"]), "kwargs": c["kwargs"]}})
+            for ref in senders:
+                if not ok_per_sender.get(ref.partition(":")[2]):
+                    res.harness_errors.append(f"request helper {ref} returns a model but no scripted call of it succeeded: it is not driven")
+
     # ---- reading an object must not change what it dumps to; the order of dump calls must not matter ----
     pr_info: Dict[str, Any] = {"method_probe_objects": 0, "methods_called": 0, "dump_order_sequences": 0,
                                "dump_calls_compared_with_a_fresh_process": 0, "violations": 0}
@@ -639,7 +703,7 @@ def run(tier: str, only=None) -> core.Result:
     if do_a and len(status_a) < 2 and not res.harness_errors:
         res.harness_errors.append(f"vacuous part A: a single outcome {status_a}")
     cov = res.coverage
-    cov["evaluations"] = 2 * len(a_cases) + variants_total + 2 * len(iso_wire)
+    cov["evaluations"] = 2 * len(a_cases) + variants_total + 2 * len(iso_wire) + 2 * len(snd_meta)
     cov["distinct_nontrivial"] = len(distinct) + len(b_distinct)
     cov["part_A"] = {
         "cases_per_backend": len(a_cases), "outcomes": dict(sorted(status_a.items())), "distinct_spec_valid_objects": len(distinct),
@@ -651,12 +715,13 @@ def run(tier: str, only=None) -> core.Result:
     cov["part_B"] = {"serialisers_discovered": len(parent_sites), "variants_driven": variants_total,
                      "distinct_site_variants": len(b_distinct), "sites": site_table, "alias_pairs": alias_pairs}
     cov["violation_signatures"] = dict(sorted(sig_count.items()))
-    cov["audit_reasked"] = audit_total + im_audit["reasked"] + pr_audit["reasked"]
+    cov["audit_reasked"] = audit_total + im_audit["reasked"] + pr_audit["reasked"] + audit_extra_c["reasked"]
     cov["audit_mismatches"] = audit_bad
     cov["audit_mismatches_explained_as_order_dependence"] = audit_order
     cov["same_name_pair_order"] = pair_info
     cov["input_mutated_after_validation"] = im_info
     cov["object_probes"] = pr_info
+    cov["part_C_typed_views_through_request_helpers"] = snd_info
     cov["mutation_isolation"] = iso_info
     cov["configurations"] = {n: {k: v for k, v in h.items() if k in ("PYDANTIC_AVAILABLE", "MCP_FORCE_FALLBACK", "base_module_of_models")}
                              for n, h in hello.items()}
@@ -689,6 +754,7 @@ def run(tier: str, only=None) -> core.Result:
         "input mutated after validation: judged absolutely only at declared containers (the object itself, nested models, members declared List[...] / Dict[...] / dict and declared items of such lists); inside free-form values (Any, values of Dict[str, Any], unknown members) both backends keep the caller's objects - counted, not judged (C09 demands that the backends agree there)",
         "mutation isolation: every validation is given its own freshly decoded wire object, so an object shared by two results cannot come from the input; immutable values (str, int, None, tuple) may be shared; the in-place mutations are undone after each case",
         "the JSON path is json.loads(model_dump_json(by_alias=True, exclude_none=True)) parsed with the standard library",
+        "part C: every coroutine send_* under chuk_mcp.protocol.messages annotated to return a model is called against a scripted peer that answers with a generated spec-valid result object; the returned typed object must be a lossless view of that result and dump like the class validated directly; string parameters also take every string found at the top level of the result (a follow-up request carries values of the previous answer, e.g. a cursor); the completion helper's result travels under 'completion' and the handshake's scripted server answers the proposed protocol version",
         "part B, resend: a typed object is edited in place (attribute assignment, a new key in its dict members) and handed to the same handler/function again; what is emitted must equal what a fresh handler emits for the object as it is now",
         "a serialiser call that moved into a private helper is driven through the function of the same file that calls the helper",
         "part B judges names only: the produced JSON must not contain, at any depth, the Python attribute name of any aliased member (no generated input uses those words as data keys) and must contain the wire name of every aliased member the input populated",
@@ -703,6 +769,11 @@ def replay_case(args: Dict[str, Any]) -> Dict[str, Any]:
 
     logging.disable(logging.CRITICAL)
     wiregen.discover()
+    if args["part"] == "sender":
+        ans = {cfg["name"]: workers.fresh_sequence(cfg, HANDLER, [args["case"]])[0] for cfg in CONFIGS}
+        viol = [{"sig": {"class": "typed-view-through-sender-lossy", "backend": n}, "msg": str(a.get("lossless") or a.get("differs_from_direct_view"))}
+                for n, a in ans.items() if a.get("ok") and (a["lossless"] or a["differs_from_direct_view"])]
+        return {"part": "sender", "answers": ans, "violations": viol}
     if args["part"] == "probe":
         viol = []
         ans = {}
